@@ -38,8 +38,9 @@ KERNELS = ["linear", "rbf", "laplacian", "polynomial", "sigmoid", "cosine"]
 
 
 def generate_for(prop, rng):
-    n = rng.randint(1 if prop == "C09" else 2, 14)
-    d = rng.randint(1, 4)
+    big = rng.random() < 0.08
+    n = rng.randint(1 if prop == "C09" else 2, 14) if not big else rng.randint(15, 30)
+    d = rng.randint(1, 4) if not big else rng.randint(3, 7)
     kind = weighted(rng, [("continuous", 4), ("integers", 3), ("duplicates", 1.5), ("constant_col", 1)])
     msl = weighted(rng, [(1, 5), (2, 2), (3, 1)])
     mss = max(2, 2 * msl + weighted(rng, [(0, 3), (1, 1), (2, 1), (4, 1)]))
@@ -48,7 +49,11 @@ def generate_for(prop, rng):
              max_features=weighted(rng, [(None, 3), (1, 1), (2, 1), (5, 0.5)]),
              max_leaves=weighted(rng, [(None, 3), (2, 1), (3, 1), (5, 1)]),
              kernel=choice(rng, KERNELS + ["precomputed", "precomputed"]))
-    if prop == "C08" and rng.random() < 0.7:
+    if big:
+        p["max_clusters"] = rng.randint(4, 9)
+        p["max_leaves"] = weighted(rng, [(None, 3), (6, 1), (9, 1)])
+        p["max_depth"] = weighted(rng, [(None, 3), (3, 1), (4, 1), (5, 1)])
+    if prop == "C08" and rng.random() < 0.7 and not big:
         p["max_clusters"] = rng.randint(3, 7)    # the double-star / reallocation branches need room
         if rng.random() < 0.6:
             p["max_depth"], p["max_leaves"] = None, None
